@@ -850,6 +850,12 @@ RULES = {
         ("for b in s . bytes ( ) { $$body }", "{ let mut i__ = 0 ; while i__ < s . len ( ) { let b = s [ i__ ] ; i__ += 1 ; $$body } }"),
         ("str :: from_utf8 ( buf ) . ok ( ) ?", "__from_utf8_ok ( buf ) ?"),
     ]),
+    "R49": MultiRule("R49", "formatter bodies: `s.make_ascii_uppercase();` (String through DerefMut<Target = str>) -> `__make_ascii_uppercase(&mut s);`; `fmt::Display::fmt(self, f)` -> `self.fmt_display(f)` (the re-homed Display::fmt of the same type); fmt::Formatter / fmt::Result spelled with their core paths", [
+        ("s . make_ascii_uppercase ( ) ;", "__make_ascii_uppercase ( & mut s ) ;"),
+        ("fmt :: Display :: fmt ( self , f )", "self . fmt_display ( f )"),
+        ("f : & mut fmt :: Formatter < '_ >", "f : & mut core :: fmt :: Formatter < '_ >"),
+        ("-> fmt :: Result", "-> core :: fmt :: Result"),
+    ]),
     "R14n": Rule("R14n", "debug_assert_ne!(..); -> (dropped)", "debug_assert_ne ! ( $$c ) ;", ""),
     "R10n": Rule("R10n", "for _ in A..E { BODY } -> { let mut i__ = A; let e__ = E; while i__ < e__ { i__ += 1; BODY } }  (std: Range yields A, .., E-1; bounds evaluated once)",
                  "for _ in $$a .. $$e { $$body }", "{ let mut i__ = $$a ; let e__ = $$e ; while i__ < e__ { i__ += 1 ; $$body } }",
